@@ -179,11 +179,31 @@ var (
 	c08Excluded  int64
 )
 
+// c08ContextPairs: (position, word) pairs that break a target only together with another
+// feature of the model, which the one-word-at-a-time sweep cannot see. Same root cause and
+// same finding as the sweep table (names are not escaped against generated helper names).
+var c08ContextPairs = map[string]string{
+	// the generated writer/reader class gets methods WriteUnion/ReadUnion, which hide the file-local
+	// WriteUnion<...>/ReadUnion<...> serializer templates used by any union-typed step of that protocol
+	"step:union": "generated C++ does not compile as C++17 when the protocol also has a union-typed step: | binary/protocols.cc: error: parse error in template argument list",
+}
+
+func loadC08Words() {
+	json.Unmarshal(c08WordsJSON, &c08Words)
+	for k, v := range c08ContextPairs {
+		i := strings.Index(k, ":")
+		if c08Words[k[:i]] == nil {
+			c08Words[k[:i]] = map[string]string{}
+		}
+		c08Words[k[:i]][k[i+1:]] = v
+	}
+}
+
 // okWords filters a pool by the sweep table: (position, word) pairs that are known to break a
 // target are listed under the finding C08-unescaped-identifier and are excluded by
 // construction while that finding is open (the exclusions are counted).
 func okWords(pos string, pool []string) []string {
-	c08WordsOnce.Do(func() { json.Unmarshal(c08WordsJSON, &c08Words) })
+	c08WordsOnce.Do(loadC08Words)
 	if !core.Open("C08-unescaped-identifier") {
 		return pool
 	}
@@ -294,7 +314,7 @@ func c08Known(c C08Case, msg string) string {
 			}
 		}
 	}
-	c08WordsOnce.Do(func() { json.Unmarshal(c08WordsJSON, &c08Words) })
+	c08WordsOnce.Do(loadC08Words)
 	for _, h := range c.Hostile {
 		if i := strings.Index(h, ":"); i > 0 {
 			if v, ok := c08Words[h[:i]][h[i+1:]]; ok && v != "ok" {
